@@ -128,6 +128,16 @@ def run(item, ctx, tier, seed):
                     k = int(np.argmax(np.any(mn != m0, axis=(1, 2))))
                     ctx.fail("negation-leaves-matrix-unchanged", dict(case, threshold=T[k]), observed=mn[k],
                              expected=m0[k])
+            if ok and sn is not None and vals and item["grid"] in ("int", "mixed"):
+                # one sentinel at a time (a scalar call, and an array in which every element fits the integer type)
+                for t in ot.INT_SENTINELS:
+                    for arg_kind, a1, a2 in (("scalar", t, -t), ("array", np.array([t, float(vals[0])]), np.array([-t, -float(vals[0])]))):
+                        ok_s, (x1, x2) = guarded(ctx, "negate-cm", dict(case, threshold=t, passed_as=arg_kind), lambda: (
+                            np.asarray(s.cm(a1).matrix).reshape(-1, 2, 2)[0], np.asarray(sn.cm(a2).matrix).reshape(-1, 2, 2)[0]))
+                        ctx.tick()
+                        if ok_s and not np.array_equal(x1, x2):
+                            ctx.fail("negation-leaves-matrix-unchanged", dict(case, threshold=t, passed_as=arg_kind), observed=x2, expected=x1)
+                            break
             # ---------------------------------------- the same relations on an object that is updated in place
             if item["grid"] in ("irregular", "int") and (ep, en) == tuple(b["easy"][1 if len(b["easy"]) > 1 else 0]) and both:
                 # (a) swap() - re-bind the scores and easy counts - swap() again: the second twin mirrors the *current* object
